@@ -271,6 +271,14 @@ void h_run(void) {
       mch = fiber_multi_channel_create(p2);
       break;
   }
+  /* "for all message counts": the channel's running positions start where 2^32 (or 2^33) earlier messages would
+   * have left them, a few slots before the boundary */
+  if ((kind == K_BOUNDED_SIG || kind == K_BOUNDED_SPIN || kind == K_MULTI) && wl_pct(25)) {
+    const uint64_t start = ((uint64_t)wl_int(1, 2) << 32) - (uint64_t)wl_int(0, 6);
+    if (kind == K_MULTI) mch->high = mch->low = start;
+    else bch->high = bch->low = start;
+    sim_probe("positions_preset", 1);
+  }
   fiber_t* f[MAXS + MAXR + 1];
   int n = 0;
   int recv_first = wl_pct(50);
